@@ -59,7 +59,24 @@ def load_check(prop):
     return importlib.import_module("sim.checks.%s" % prop.lower())
 
 
+_DEADLINE = None       # wall-clock instant at which the case in progress is over; None between cases
+STRAY_ALARMS = 0
+
+
 def _alarm(signum, frame):
+    """The case alarm.  It only counts when the deadline of the case in progress has really come: a SIGALRM that arrives
+    between cases or early (twice in a day of runs one reached a worker in the first milliseconds of a case, origin not
+    established) is counted, the timer is set again for what is left, and nothing is raised."""
+    global STRAY_ALARMS
+    d = _DEADLINE
+    if d is None:
+        STRAY_ALARMS += 1
+        return
+    left = d - time.time()
+    if left > 0.05:
+        STRAY_ALARMS += 1
+        signal.setitimer(signal.ITIMER_REAL, left)
+        return
     raise CaseTimeout()
 
 
@@ -76,36 +93,45 @@ def exec_case(check, case, timeout):
     """Run one case with a wall-clock guard.  Returns the result dict."""
     old = signal.signal(signal.SIGALRM, _alarm)
     timeout = max(timeout, case.get("timeout") or 0)      # a case may declare that it needs longer (e.g. C04 needle cases)
-    signal.setitimer(signal.ITIMER_REAL, timeout)
+    global _DEADLINE
     t0 = time.time()
     from . import common as _common
     _common.TIMEOUT_FIRED = False
     leaked = reset_library_state()
+    stray0 = STRAY_ALARMS
+    _DEADLINE = time.time() + timeout
+    signal.setitimer(signal.ITIMER_REAL, timeout)
+    # The alarm is one-shot, so it can reach this frame once at most - but at any line of it, also between the clauses
+    # below (it was seen to fire on the very line that starts the disarming).  Hence two layers: whatever the inner
+    # statement lets through is caught by the outer one, after which no alarm can follow.
+    res = None
     try:
-        res = check.run_case(case)
+        try:
+            res = check.run_case(case)
+        except CaseTimeout:
+            res = {"outcome": "skip", "reason": "wall-timeout"}
+        except Exception as e:   # harness error, never a violation
+            if isinstance(e, (AttributeError, ImportError)) and _raised_in_harness(e):
+                # the harness reached for a private name of the library that is not there (any more): this run cannot be
+                # judged.  That is neither a violation nor a pass; it is counted, and reported loudly by main().
+                res = {"outcome": "skip", "reason": "instrumentation-missing:%s" % str(e)[:80]}
+            else:
+                res = {"outcome": "harness-error", "reason": "%s: %s" % (type(e).__name__, e),
+                       "trace": traceback.format_exc()[-3000:]}
+        except BaseException as e:   # noqa
+            if type(e).__name__ in ("InnerTimeout", "HarnessCap", "LineCap"):
+                res = {"outcome": "skip", "reason": "cap:" + type(e).__name__}
+            else:
+                raise
+        finally:
+            signal.setitimer(signal.ITIMER_REAL, 0)
     except CaseTimeout:
         res = {"outcome": "skip", "reason": "wall-timeout"}
-    except Exception as e:   # harness error, never a violation
-        if isinstance(e, (AttributeError, ImportError)) and _raised_in_harness(e):
-            # the harness reached for a private name of the library that is not there (any more): this run cannot be
-            # judged.  That is neither a violation nor a pass; it is counted, and reported loudly by main().
-            res = {"outcome": "skip", "reason": "instrumentation-missing:%s" % str(e)[:80]}
-        else:
-            res = {"outcome": "harness-error", "reason": "%s: %s" % (type(e).__name__, e),
-                   "trace": traceback.format_exc()[-3000:]}
-    except BaseException as e:   # noqa
-        if type(e).__name__ in ("InnerTimeout", "HarnessCap", "LineCap"):
-            res = {"outcome": "skip", "reason": "cap:" + type(e).__name__}
-        else:
-            raise
-    finally:
-        for _ in range(3):          # the alarm may fire right here: disarm it without letting it escape
-            try:
-                signal.setitimer(signal.ITIMER_REAL, 0)
-                signal.signal(signal.SIGALRM, old)
-                break
-            except CaseTimeout:
-                res = {"outcome": "skip", "reason": "wall-timeout"}
+    _DEADLINE = None
+    signal.setitimer(signal.ITIMER_REAL, 0)
+    signal.signal(signal.SIGALRM, old)
+    if STRAY_ALARMS != stray0:
+        res.setdefault("counters", {})["harness.stray-alarm-ignored"] = STRAY_ALARMS - stray0
     res["wall"] = time.time() - t0
     if leaked:
         res.setdefault("counters", {})
@@ -129,11 +155,10 @@ def _run_one_index(check, prop, verif_seed, tier, i, timeout):
         return (i, None, {"outcome": "skip", "reason": "generator-none", "wall": 0})
     case["run_index"] = i
     case["run_seed"] = rs
-    faulthandler.dump_traceback_later(timeout * 2 + 30, exit=False)     # a hang inside C code shows its Python stack
-    try:
-        res = exec_case(check, case, timeout)
-    finally:
-        faulthandler.cancel_dump_traceback_later()
+    # (no faulthandler.dump_traceback_later here: in this sandbox workers were seen to die abruptly right while such a dump
+    # was being written - three times out of four dumps in one run - and a worker that dies takes its chunk with it; a
+    # case that hangs is ended by its alarm, a hang inside C code by the pool's hard deadline)
+    res = exec_case(check, case, timeout)
     if res.get("reduced_case") is not None:
         # a fault sweep found its violation at one placement: continue with the plain single-fault case
         rc = res.pop("reduced_case")
@@ -551,7 +576,8 @@ def main(argv=None):
                         if case is not None:
                             kept_cases[i] = case
                 except Exception as e:
-                    harness_errors.append("worker died: %r" % (e,))
+                    codes = sorted(set(str(p_.exitcode) for p_ in list(getattr(ex, "_processes", {}).values()) if p_.exitcode not in (None, 0)))
+                    harness_errors.append("worker died: %r (exit codes of dead workers: %s)" % (e, ",".join(codes) or "?"))
                 if time.time() - t_start < budget and next_i < max_runs:
                     submit()
     sample_wall = time.time() - t_start
